@@ -58,271 +58,271 @@ theorem idCounterOtherUses_eq : Gen.GrpcStatus.idCounterOtherUses = [] := rfl
 
 /-! ### sample-relevant slices: the decision trees of `Model.C10` (`shootHttp`, `stepHttp`/`shootScenario`, `shootGrpc`,
 `stepGrpc`/`shootGrpcScenario`, `addTag`, `autotagChars`, `ShotPlan.toShot`) were written against exactly this code.
-A change to any statement that creates, fills or reports a sample breaks one of these lemmas. -/
+A change to any statement that creates, fills or reports a sample breaks one of these lemmas; renaming locals
+(printed as v1, v2 … in order of appearance), reordering independent setter calls and touching statements outside the
+slice (logging, tracing, dumping, timing) does not (see gen/area_grpcstatus_slices.go). -/
 
 theorem sliceBaseShoot_eq : Gen.GrpcStatus.sliceBaseShoot = [
-  "if b.Aggregator == nil {",
+  "if v1.Aggregator == nil {",
   "  zap.L().Panic(\"must bind before shoot\")",
   "}",
-  "if b.Connect != nil {",
-  "  err := b.Connect(b.Ctx)",
-  "  if err != nil {",
+  "if v1.Connect != nil {",
+  "  v2 := v1.Connect(v1.Ctx)",
+  "  if v2 != nil {",
   "    return",
   "  }",
   "}",
-  "req, sample := ammo.Request()",
-  "if ammo.IsInvalid() {",
-  "  sample.AddTag(EmptyTag)",
-  "  sample.SetProtoCode(0)",
-  "  b.Aggregator.Report(sample)",
+  "v3, v4 := v5.Request()",
+  "if v5.IsInvalid() {",
+  "  v4.AddTag(EmptyTag)",
+  "  v4.SetProtoCode(0)",
+  "  v1.Aggregator.Report(v4)",
   "  return",
   "}",
-  "if b.Config.AutoTag.Enabled && (!b.Config.AutoTag.NoTagOnly || sample.Tags() == \"\") {",
-  "  sample.AddTag(autotag(b.Config.AutoTag.URIElements, req.URL))",
+  "if v1.Config.AutoTag.Enabled && (!v1.Config.AutoTag.NoTagOnly || v4.Tags() == \"\") {",
+  "  v4.AddTag(autotag(v1.Config.AutoTag.URIElements, v3.URL))",
   "}",
-  "if sample.Tags() == \"\" {",
-  "  sample.AddTag(EmptyTag)",
+  "if v4.Tags() == \"\" {",
+  "  v4.AddTag(EmptyTag)",
   "}",
-  "var err error",
+  "var v6 error",
   "defer func() {",
-  "  if err != nil {",
-  "    sample.SetErr(err)",
+  "  if v6 != nil {",
+  "    v4.SetErr(v6)",
   "  }",
-  "  b.Aggregator.Report(sample)",
-  "  err = errors.WithStack(err)",
+  "  v1.Aggregator.Report(v4)",
+  "  v6 = errors.WithStack(v6)",
   "}()",
-  "if b.Config.HTTPTrace.DumpEnabled {",
-  "  requestDump, err := httputil.DumpRequest(req, true)",
-  "}",
-  "res, err = b.Client.Do(req)",
-  "if b.Config.HTTPTrace.DumpEnabled && res != nil {",
-  "  responseDump, err := httputil.DumpResponse(res, true)",
-  "}",
-  "if err != nil {",
+  "v7, v6 = v1.Client.Do(v3)",
+  "if v6 != nil {",
   "  return",
   "}",
-  "sample.SetProtoCode(res.StatusCode)",
-  "_, err = io.Copy(ioutil.Discard, res.Body)",
-  "if err != nil {",
+  "v4.SetProtoCode(v7.StatusCode)",
+  "_, v6 = io.Copy(ioutil.Discard, v7.Body)",
+  "if v6 != nil {",
   "  return",
   "}"] := rfl
 
 theorem srcAutotag_eq : Gen.GrpcStatus.srcAutotag = [
-  "path := URL.Path",
-  "var ind int",
-  "for ; ind < len(path); ind++ { if path[ind] == '/' { if depth == 0 { break } depth-- } }",
-  "return path[:ind]"] := rfl
+  "v1 := v2.Path",
+  "var v3 int",
+  "for ; v3 < len(v1); v3++ { if v1[v3] == '/' { if v4 == 0 { break } v4-- } }",
+  "return v1[:v3]"] := rfl
 
 theorem sliceScenarioShoot_eq : Gen.GrpcStatus.sliceScenarioShoot = [
-  "if g.base.Aggregator == nil {",
+  "if v1.base.Aggregator == nil {",
   "  zap.L().Panic(\"must bind before shoot\")",
   "}",
-  "if g.base.Connect != nil {",
-  "  err := g.base.Connect(g.base.Ctx)",
-  "  if err != nil {",
+  "if v1.base.Connect != nil {",
+  "  v2 := v1.base.Connect(v1.base.Ctx)",
+  "  if v2 != nil {",
   "    return",
   "  }",
   "}",
-  "err := g.shoot(ammo, templateVars)",
-  "if err != nil {",
+  "v3 := v1.shoot(v4, v5)",
+  "if v3 != nil {",
   "  return",
   "}"] := rfl
 
 theorem sliceScenarioShootLoop_eq : Gen.GrpcStatus.sliceScenarioShootLoop = [
-  "for _, req := range ammo.Requests {",
-  "  tag := ammo.Name + \".\" + req.Name",
-  "  sample := netsample.Acquire(tag)",
-  "  err := g.shootStep(req, sample, ammo.Name, templateVars, requestVars, idBuilder.String())",
-  "  if err != nil {",
-  "    g.reportErr(sample, err)",
-  "    return err",
+  "for _, v1 := range v2.Requests {",
+  "  v3 := v2.Name + \".\" + v1.Name",
+  "  v4 := netsample.Acquire(v3)",
+  "  v5 := v6.shootStep(v1, v4, v2.Name, v7, v8, v9.String())",
+  "  if v5 != nil {",
+  "    v6.reportErr(v4, v5)",
+  "    return v5",
   "  }",
   "}",
   "return nil"] := rfl
 
 theorem sliceScenarioShootStep_eq : Gen.GrpcStatus.sliceScenarioShootStep = [
-  "if step.Preprocessor != nil {",
-  "  preProcVars, err := step.Preprocessor.Process(templateVars)",
-  "  if err != nil {",
-  "    return fmt.Errorf(\"%s preProcessor %w\", op, err)",
+  "if v1.Preprocessor != nil {",
+  "  v2, v3 := v1.Preprocessor.Process(v4)",
+  "  if v3 != nil {",
+  "    return fmt.Errorf(\"%s preProcessor %w\", v5, v3)",
   "  }",
   "}",
-  "if err := step.Templater.Apply(&reqParts, templateVars, ammoName, step.Name); err != nil {",
-  "  return fmt.Errorf(\"%s templater.Apply %w\", op, err)",
+  "if v6 := v1.Templater.Apply(&v7, v4, v8, v1.Name); v6 != nil {",
+  "  return fmt.Errorf(\"%s templater.Apply %w\", v5, v6)",
   "}",
-  "req, err := g.prepareRequest(reqParts)",
-  "if err != nil {",
-  "  return fmt.Errorf(\"%s prepareRequest %w\", op, err)",
+  "v9, v10 := v11.prepareRequest(v7)",
+  "if v10 != nil {",
+  "  return fmt.Errorf(\"%s prepareRequest %w\", v5, v10)",
   "}",
-  "resp, err := g.base.Client.Do(req)",
-  "if err != nil {",
-  "  return fmt.Errorf(\"%s g.Do %w\", op, err)",
+  "v12, v10 := v11.base.Client.Do(v9)",
+  "if v10 != nil {",
+  "  return fmt.Errorf(\"%s g.Do %w\", v5, v10)",
   "}",
-  "if g.base.Config.AnswLog.Enabled || g.base.DebugLog || len(processors) > 0 {",
-  "  respBodyBytes, err = io.ReadAll(resp.Body)",
+  "v13 := v1.Postprocessors",
+  "if v11.base.Config.AnswLog.Enabled || v11.base.DebugLog || len(v13) > 0 {",
+  "  v14, v10 = io.ReadAll(v12.Body)",
   "} else {",
-  "  _, err = io.Copy(io.Discard, resp.Body)",
+  "  _, v10 = io.Copy(io.Discard, v12.Body)",
   "}",
-  "if err != nil {",
-  "  return fmt.Errorf(\"%s io.Copy %w\", op, err)",
+  "if v10 != nil {",
+  "  return fmt.Errorf(\"%s io.Copy %w\", v5, v10)",
   "}",
-  "for _, postprocessor := range processors {",
-  "  vars, err = postprocessor.Process(resp, respBody)",
-  "  if err != nil {",
-  "    return fmt.Errorf(\"%s postprocessor.Postprocess %w\", op, err)",
+  "for _, v15 := range v13 {",
+  "  v16, v10 = v15.Process(v12, v17)",
+  "  if v10 != nil {",
+  "    return fmt.Errorf(\"%s postprocessor.Postprocess %w\", v5, v10)",
   "  }",
-  "  _, err = respBody.Seek(0, io.SeekStart)",
-  "  if err != nil {",
-  "    return fmt.Errorf(\"%s postprocessor.Postprocess %w\", op, err)",
+  "  _, v10 = v17.Seek(0, io.SeekStart)",
+  "  if v10 != nil {",
+  "    return fmt.Errorf(\"%s postprocessor.Postprocess %w\", v5, v10)",
   "  }",
   "}",
-  "sample.SetProtoCode(resp.StatusCode)",
-  "g.base.Aggregator.Report(sample)",
+  "v18.SetProtoCode(v12.StatusCode)",
+  "v11.base.Aggregator.Report(v18)",
   "return nil"] := rfl
 
 theorem sliceScenarioReportErr_eq : Gen.GrpcStatus.sliceScenarioReportErr = [
-  "if err == nil {",
+  "if v1 == nil {",
   "  return",
   "}",
-  "sample.AddTag(EmptyTag)",
-  "sample.SetProtoCode(0)",
-  "sample.SetErr(err)",
-  "g.base.Aggregator.Report(sample)"] := rfl
+  "v2.AddTag(EmptyTag)",
+  "v2.SetErr(v1)",
+  "v2.SetProtoCode(0)",
+  "v3.base.Aggregator.Report(v2)"] := rfl
 
 theorem sliceGrpcShoot_eq : Gen.GrpcStatus.sliceGrpcShoot = [
-  "g.shoot(customAmmo)"] := rfl
+  "v1.shoot(v2)"] := rfl
 
 theorem sliceGrpcShootInner_eq : Gen.GrpcStatus.sliceGrpcShootInner = [
-  "code := 0",
-  "sample := netsample.Acquire(ammo.Tag)",
+  "v1 := 0",
+  "v2 := netsample.Acquire(v3.Tag)",
   "defer func() {",
-  "  sample.SetProtoCode(code)",
-  "  g.Aggr.Report(sample)",
+  "  v2.SetProtoCode(v1)",
+  "  v4.Aggr.Report(v2)",
   "}()",
-  "if !ok {",
+  "v5, v6 := v4.Services[v3.Call]",
+  "if !v6 {",
   "  return",
   "}",
-  "payloadJSON, err := json.Marshal(ammo.Payload)",
-  "if err != nil {",
+  "v7, v8 := json.Marshal(v3.Payload)",
+  "if v8 != nil {",
   "  return",
   "}",
-  "err = message.UnmarshalJSON(payloadJSON)",
-  "if err != nil {",
-  "  code = 400",
+  "v8 = v9.UnmarshalJSON(v7)",
+  "if v8 != nil {",
+  "  v1 = 400",
   "  return",
   "}",
-  "out, grpcErr := g.Stub.InvokeRpc(ctx, &method, message)",
-  "code = ConvertGrpcStatus(grpcErr)"] := rfl
+  "v10, v11 := v4.Stub.InvokeRpc(v12, &v5, v9)",
+  "v1 = ConvertGrpcStatus(v11)"] := rfl
 
 theorem sliceGrpcScenarioShoot_eq : Gen.GrpcStatus.sliceGrpcScenarioShoot = [
-  "err := g.shoot(scen, templateVars)",
-  "if err != nil {",
+  "v1 := v2.shoot(v3, v4)",
+  "if v1 != nil {",
   "  return",
   "}"] := rfl
 
 theorem sliceGrpcScenarioShootLoop_eq : Gen.GrpcStatus.sliceGrpcScenarioShootLoop = [
-  "for _, call := range ammo.Calls {",
-  "  tag := ammo.Name + \".\" + call.Tag",
-  "  sample := netsample.Acquire(tag)",
-  "  err := g.shootStep(&call, sample, ammo.Name, templateVars, requestVars)",
-  "  if err != nil {",
-  "    return err",
+  "for _, v1 := range v2.Calls {",
+  "  v3 := v2.Name + \".\" + v1.Tag",
+  "  v4 := netsample.Acquire(v3)",
+  "  v5 := v6.shootStep(&v1, v4, v2.Name, v7, v8)",
+  "  if v5 != nil {",
+  "    return v5",
   "  }",
   "}",
   "return nil"] := rfl
 
 theorem sliceGrpcScenarioShootStep_eq : Gen.GrpcStatus.sliceGrpcScenarioShootStep = [
-  "code := 0",
+  "v1 := 0",
   "defer func() {",
-  "  sample.SetProtoCode(code)",
-  "  g.gun.Aggr.Report(sample)",
+  "  v2.SetProtoCode(v1)",
+  "  v3.gun.Aggr.Report(v2)",
   "}()",
-  "for _, preProcessor := range step.Preprocessors {",
-  "  pp, err := preProcessor.Process(step, templateVars)",
-  "  if err != nil {",
-  "    return fmt.Errorf(\"%s preProcessor %w\", op, err)",
+  "for _, v4 := range v5.Preprocessors {",
+  "  v6, v7 := v4.Process(v5, v8)",
+  "  if v7 != nil {",
+  "    return fmt.Errorf(\"%s preProcessor %w\", v9, v7)",
   "  }",
   "}",
-  "payloadJSON, err := g.templ.Apply(step.Payload, stepMetadata, templateVars, ammoName, step.Name)",
-  "if err != nil {",
-  "  return fmt.Errorf(\"%s templater.Apply %w\", op, err)",
+  "v10, v11 := v3.templ.Apply(v5.Payload, v12, v8, v13, v5.Name)",
+  "if v11 != nil {",
+  "  return fmt.Errorf(\"%s templater.Apply %w\", v9, v11)",
   "}",
-  "if !ok {",
-  "  return fmt.Errorf(\"%s invalid step.Call\", op)",
+  "v14, v15 := v3.gun.Services[v5.Call]",
+  "if !v15 {",
+  "  return fmt.Errorf(\"%s invalid step.Call\", v9)",
   "}",
-  "err = message.UnmarshalJSON(payloadJSON)",
-  "if err != nil {",
-  "  code = 400",
-  "  return fmt.Errorf(\"%s invalid payload. Cant unmarshal gRPC\", op)",
+  "v11 = v16.UnmarshalJSON(v10)",
+  "if v11 != nil {",
+  "  v1 = 400",
+  "  return fmt.Errorf(\"%s invalid payload. Cant unmarshal gRPC\", v9)",
   "}",
-  "out, grpcErr := g.gun.Stub.InvokeRpc(ctx, &method, message)",
-  "code = grpcgun.ConvertGrpcStatus(grpcErr)",
-  "sample.SetProtoCode(code)",
-  "for _, postProcessor := range step.Postprocessors {",
-  "  pp, err := postProcessor.Process(out, code)",
-  "  if err != nil {",
-  "    return fmt.Errorf(\"%s postProcessor %w\", op, err)",
+  "v17, v18 := v3.gun.Stub.InvokeRpc(v19, &v14, v16)",
+  "v1 = grpcgun.ConvertGrpcStatus(v18)",
+  "v2.SetProtoCode(v1)",
+  "for _, v20 := range v5.Postprocessors {",
+  "  v21, v22 := v20.Process(v17, v1)",
+  "  if v22 != nil {",
+  "    return fmt.Errorf(\"%s postProcessor %w\", v9, v22)",
   "  }",
   "}",
-  "if out != nil {",
-  "  err = message.ConvertFrom(out)",
-  "  if err != nil {",
-  "    return fmt.Errorf(\"%s message.ConvertFrom `%s`; err: %w\", op, out.String(), err)",
+  "if v17 != nil {",
+  "  v11 = v16.ConvertFrom(v17)",
+  "  if v11 != nil {",
+  "    return fmt.Errorf(\"%s message.ConvertFrom `%s`; err: %w\", v9, v17.String(), v11)",
   "  }",
-  "  b, err := message.MarshalJSON()",
-  "  if err != nil {",
-  "    return fmt.Errorf(\"%s message.MarshalJSON %w\", op, err)",
+  "  v23, v24 := v16.MarshalJSON()",
+  "  if v24 != nil {",
+  "    return fmt.Errorf(\"%s message.MarshalJSON %w\", v9, v24)",
   "  }",
-  "  err = json.Unmarshal(b, &outMap)",
-  "  if err != nil {",
-  "    return fmt.Errorf(\"%s json.Unmarshal %w\", op, err)",
+  "  v24 = json.Unmarshal(v23, &v25)",
+  "  if v24 != nil {",
+  "    return fmt.Errorf(\"%s json.Unmarshal %w\", v9, v24)",
   "  }",
   "}",
   "return nil"] := rfl
 
 theorem srcAcquire_eq : Gen.GrpcStatus.srcAcquire = [
-  "s := samplePool.Get().(*Sample)",
-  "*s = Sample{ timeStamp: time.Now(), tags: tag, }",
-  "return s"] := rfl
+  "v1 := samplePool.Get().(*Sample)",
+  "*v1 = Sample{ timeStamp: time.Now(), tags: v2, }",
+  "return v1"] := rfl
 
 theorem srcAddTag_eq : Gen.GrpcStatus.srcAddTag = [
-  "if s.tags == \"\" { s.tags = tag return }",
-  "s.tags += \"|\" + tag"] := rfl
+  "if v1.tags == \"\" { v1.tags = v2 return }",
+  "v1.tags += \"|\" + v2"] := rfl
 
 theorem srcSetID_eq : Gen.GrpcStatus.srcSetID = [
-  "s.id = id"] := rfl
+  "v1.id = v2"] := rfl
 
 theorem srcSetProtoCode_eq : Gen.GrpcStatus.srcSetProtoCode = [
-  "s.set(keyProtoCode, code)",
-  "s.setRTT()"] := rfl
+  "v1.set(keyProtoCode, v2)",
+  "v1.setRTT()"] := rfl
 
 theorem srcSetErr_eq : Gen.GrpcStatus.srcSetErr = [
-  "s.err = err",
-  "s.set(keyErrno, getErrno(err))",
-  "s.setRTT()"] := rfl
+  "v1.err = v2",
+  "v1.set(keyErrno, getErrno(v2))",
+  "v1.setRTT()"] := rfl
 
 theorem srcGunAmmoRequest_eq : Gen.GrpcStatus.srcGunAmmoRequest = [
-  "sample := netsample.Acquire(g.tag)",
-  "sample.SetID(g.id)",
-  "return g.req, sample"] := rfl
+  "v1 := netsample.Acquire(v2.tag)",
+  "v1.SetID(v2.id)",
+  "return v2.req, v1"] := rfl
 
 theorem srcNewGunAmmo_eq : Gen.GrpcStatus.srcNewGunAmmo = [
-  "return GunAmmo{ req: req, id: id, tag: tag, }"] := rfl
+  "return GunAmmo{ req: v1, id: v2, tag: v3, }"] := rfl
 
 theorem sliceHTTPProviderAcquire_eq : Gen.GrpcStatus.sliceHTTPProviderAcquire = [
-  "if !ok {",
+  "v1, v2 := <-v3.Sink",
+  "if !v2 {",
   "  return nil, false",
   "}",
-  "req, err := ammo.BuildRequest()",
-  "if err != nil {",
-  "  return ammo, false",
+  "v4, v5 := v1.BuildRequest()",
+  "if v5 != nil {",
+  "  return v1, false",
   "}",
-  "for _, mw := range p.Middlewares {",
-  "  err := mw.UpdateRequest(req)",
-  "  if err != nil {",
-  "    return ammo, false",
+  "for _, v6 := range v3.Middlewares {",
+  "  v7 := v6.UpdateRequest(v4)",
+  "  if v7 != nil {",
+  "    return v1, false",
   "  }",
   "}",
-  "return httpProvider.NewGunAmmo(req, ammo.Tag(), p.NextID()), ok"] := rfl
+  "return httpProvider.NewGunAmmo(v4, v1.Tag(), v3.NextID()), v2"] := rfl
 
 end Pandora.Bridge.GrpcStatus
